@@ -492,9 +492,58 @@ def r4(ctx):
                 txt = norm(c)
                 okk = "exit_status" in txt and h.name is not None and ("%s.exit_status" % h.name) in txt
     ctx.check("C03.R4", okk, key(f_run, "forward-exit-status"), site(f_run), "run() does not forward HaltServer.exit_status to halt(): the distinct status would be lost", "halt(exit_status=inst.exit_status)")
+    halt_survives_signal_context(ctx, "C03.R4")
     f_halt = ctx.fn(repo.func(ARB + ".halt"))
     ex = [c for c in calls_to(repo, f_halt, "sys.exit") if c.args and isinstance(c.args[0], ast.Name) and c.args[0].id in f_halt.params]
     ctx.check("C03.R4", bool(ex), key(f_halt, "exit-with-status"), site(f_halt), "halt() does not exit with the status it was given", "sys.exit(exit_status)")
+
+
+def halt_survives_signal_context(ctx, rid):
+    """The decision "a worker failed to boot: stop the server" is taken inside the SIGCHLD handler. An exception raised by a
+    Python-level signal handler surfaces wherever the main thread happens to be -- and is *discarded* when that is a context
+    whose exceptions are ignored: the after-fork callbacks os.fork() runs in the parent (logging's, random's, threading's:
+    exactly where the master is when a worker dies right after the fork), a finalizer, a GC or weakref callback. The halt is
+    then lost while the worker is already reaped: it stays in WORKERS as a live worker until the heartbeat timeout (for ever
+    with timeout = 0). Rule: HaltServer never escapes a function installed with signal.signal(); the handler records the
+    decision in an attribute of the arbiter that the main loop tests and answers by raising it / halting."""
+    repo = ctx.repo
+    from .c05 import _landing
+    cls = repo.cls(ARB)
+    HS = "gunicorn.errors.HaltServer"
+    raisers = set(m.qualname for m in cls.methods.values() if any(n.raised and n.raised.endswith("HaltServer") for n in m.cfg.stmts(ast.Raise)))
+    handlers = set()
+    for m in cls.methods.values():
+        for c, q in repo.calls_in(m):
+            if q == "signal.signal" and len(c.args) == 2 and isinstance(c.args[1], ast.Attribute) and tail(c.args[1].value) == "self" and c.args[1].attr in cls.methods:
+                handlers.add(c.args[1].attr)
+    ctx.need(handlers, rid + ": no handler installed with signal.signal found in the arbiter")
+    f_run = repo.func(ARB + ".run")
+    n = 0
+    for hname in sorted(handlers):
+        fh = ctx.fn(cls.methods[hname])
+        for c, q in repo.calls_in(fh):
+            if q not in raisers:
+                continue
+            n += 1
+            h = _landing(repo, fh, c, HS)
+            ctx.check(rid, h is not None, key(fh, "halt-not-raised-from-signal-handler|" + q.rsplit(".", 1)[-1]), site(fh, c),
+                      "`%s` raises HaltServer inside the %s signal handler and nothing there catches it: when the signal is delivered while the interpreter runs code whose exceptions are ignored "
+                      "(the after-fork callbacks of os.fork() in the parent -- where the master is when a worker dies right after the fork --, a finalizer, a GC callback) the exception is discarded: "
+                      "the server is not stopped, and the boot-failed worker stays in WORKERS as a live one until the heartbeat timeout (for ever with timeout = 0)" % (norm(c), hname),
+                      "HaltServer caught in the handler and handed to the main loop")
+            if h is None:
+                continue
+            flags = [t.attr for x in ast.walk(h) if isinstance(x, ast.Assign) for t in x.targets if isinstance(t, ast.Attribute) and tail(t.value) == "self"]
+            g = f_run.cfg
+            answered = False
+            for t in g.tests():
+                if any(isinstance(x, ast.Attribute) and x.attr in flags and tail(x.value) == "self" for x in ast.walk(t.ast)) and f_run.module.enclosing(t.ast, ast.While) is not None:
+                    r = g.reachable([(t, "true")], follow_exc=False)
+                    answered = answered or g.raise_exit in g.reachable([(t, "true")], follow_exc=True, stop=lambda x: x.kind == "join" and x is not t) or \
+                        any(x.kind == "stmt" and isinstance(x.ast, ast.Raise) for x in r) or any(repo.call_target(f_run.module, f_run, cc) == ARB + ".halt" for x in r if x.ast is not None for root in x.cover for cc in ast.walk(root) if isinstance(cc, ast.Call))
+            ctx.check(rid, bool(flags) and answered, key(fh, "halt-handed-to-main-loop|" + q.rsplit(".", 1)[-1]), site(fh, h),
+                      "the handler swallows HaltServer without recording it in an attribute that the main loop of run() tests and answers by stopping the server", "recorded in self.%s, tested in run()" % (flags[:1] or ["?"])[0])
+    ctx.count("HaltServer-raising calls in signal handlers", n)
 
 
 def kill_worker_table(ctx, rid):
